@@ -466,6 +466,22 @@ def run(scenario, world):
                     hp, hp.tb), step)
             n, _, _, _ = check_hier(hp, vals, step, 'hierpost', world,
                                     default_names)
+            x_in = _in_support(vals, n)
+            x_out = np.array(x_in, dtype=float)
+            x_out[-1] = -abs(x_out[-1])      # outside the log-normal prior
+            for label_, xx in (('inside', x_in), ('outside', x_out)):
+                g = call(hp.evaluateS1, xx)
+                if is_exc(g):
+                    if not ok_exc(g):
+                        fail('hierpost.gradient_length', 'raises',
+                             '%s the prior support: %r\n%s' % (
+                                 label_, g, g.tb), step)
+                    break
+                if np.shape(g[1]) != (n,):
+                    fail('hierpost.gradient_length', 'differs',
+                         '%s the prior support: gradient %s, n_parameters '
+                         '%d (score %s)' % (label_, np.shape(g[1]), n,
+                                            short(g[0])), step)
             init = call(hp.sample_initial_parameters, 2, 5)
             if is_exc(init):
                 if not ok_exc(init):
